@@ -326,6 +326,8 @@ def engine_run(ch, *, bias=None, unknown_rates=(0.0, 0.0, 0.03, 0.3, 1.0), n_sig
                                        sub_kinds=sorted({k for k, t in mm if "/" in t.split(":", 1)[0]}),
                                        ref_subframes=len(subs),
                                        ref_failed_subframes=sum(1 for f in subs if f.error is not None)))
+                return "quirk" if q else "mismatch"
+            return "match"
 
         need_fail_path = []
         # ---------------- model-first: at least one sigma per satisfiable reported path
@@ -363,10 +365,16 @@ def engine_run(ch, *, bias=None, unknown_rates=(0.0, 0.0, 0.03, 0.3, 1.0), n_sig
                 elif st == "unknown":
                     unknown_any = True
                     probe("pathval_unknown")
-            for r, m in members:
-                judge(r, m, sigma, f"gen{k}")
+            statuses = [judge(r, m, sigma, f"gen{k}") for r, m in members]
             if len(members) > 1:
                 probe("sigma_in_several_paths")
+            # coverage (C02): every path that contains the input ends differently from the EVM -> its behaviour is in no path
+            if statuses and all(s_ == "mismatch" for s_ in statuses) and not flagged and not unknown_any and not stuck_member:
+                violations.append(dict(
+                    oracle="ENGINE:input-uncovered", disc="behaviour-in-no-path",
+                    detail=f"input { {k_: hex(v_) for k_, v_ in sigma.items()} } is contained in {len(members)} reported path(s) "
+                           f"({[r_.index for r_, _ in members]}), none of which ends like the reference execution of that input "
+                           f"(see the endstate mismatch of the same run); its behaviour is represented by no path", kind="uncovered"))
             # coverage (C02)
             if not members and not stuck_member and not unknown_any:
                 try:
